@@ -24,6 +24,12 @@ theorem pass1_ext {ι} (b : Backend ι) :
       · cases h
       · obtain ⟨u, hu⟩ := pass1_ext b r _ s1 h
         exact ⟨(n, s.addr) :: u, by rw [hu]; simp⟩
+  | .func n :: r, s, s1, h => by
+      simp only [pass1] at h
+      split at h
+      · cases h
+      · obtain ⟨u, hu⟩ := pass1_ext b r _ s1 h
+        exact ⟨(n, s.addr) :: u, by rw [hu]; simp⟩
   | .emit i :: r, s, s1, h => by
       simp only [pass1] at h
       obtain ⟨u, hu⟩ := pass1_ext b r _ s1 h
@@ -47,6 +53,19 @@ theorem lookup_bound (t u : Syms) (n : String) (a : Nat) (h : lookup t n = none)
     | some p => rw [hf] at h; cases h
   simp [List.find?_append, h1]
 
+/-- the step shared by `name:` and `.func name`: pass 1 bound `n` (unknown before) to `s.addr`; if the
+    locked append at counter `a'` succeeds, then `a' = s.addr` -/
+theorem bind_step {ι} (b : Backend ι) (T : Syms) (r : List (Stmt ι)) (s s1 : St1) (n : String) (a' : Nat)
+    (hnone : lookup s.syms n = none)
+    (h : pass1 b r { s with syms := s.syms ++ [(n, s.addr)] } = some s1)
+    (hT : ∀ n v, lookup s1.syms n = some v → lookup T n = some v)
+    (hok : appendLocked T n a' = true) : s.addr = a' := by
+  obtain ⟨u, hu⟩ := pass1_ext b r _ s1 h
+  have hb : lookup s1.syms n = some s.addr := by
+    rw [hu]; exact lookup_bound s.syms u n s.addr hnone
+  have hTn := hT n s.addr hb
+  simpa [appendLocked, hTn] using hok
+
 theorem accepted_aux {ι} (b : Backend ι) (T : Syms) (M : Mem) :
     ∀ (prog : List (Stmt ι)) (s s1 : St1) (a' : Nat) (placed : List (String × Nat)),
       pass1 b prog s = some s1 →
@@ -61,21 +80,34 @@ theorem accepted_aux {ι} (b : Backend ι) (T : Syms) (M : Mem) :
       · cases h
       · rename_i hnone
         have hnone' : lookup s.syms n = none := by simpa using hnone
-        obtain ⟨u, hu⟩ := pass1_ext b r _ s1 h
-        have hb : lookup s1.syms n = some s.addr := by
-          rw [hu]; exact lookup_bound s.syms u n s.addr hnone'
-        have hTn := hT n s.addr hb
-        simp only [pass2, hTn] at h2
+        simp only [pass2] at h2
         split at h2
-        · cases h2
-        · rename_i hne
-          have haddr : s.addr = a' := by simpa using hne
+        · rename_i hok
+          have haddr := bind_step b T r s s1 n a' hnone' h hT hok
           cases hp : pass2 b T M r a' with
           | none => rw [hp] at h2; simp at h2
           | some pl =>
               rw [hp] at h2; simp at h2
               have := accepted_aux b T M r _ s1 a' pl h hT hp
               rw [this, ← h2, haddr]; simp
+        · cases h2
+  | .func n :: r, s, s1, a', placed, h, hT, h2 => by
+      simp only [pass1] at h
+      split at h
+      · cases h
+      · rename_i hnone
+        have hnone' : lookup s.syms n = none := by simpa using hnone
+        simp only [pass2] at h2
+        split at h2
+        · rename_i hok
+          have haddr := bind_step b T r s s1 n a' hnone' h hT hok
+          cases hp : pass2 b T M r a' with
+          | none => rw [hp] at h2; simp at h2
+          | some pl =>
+              rw [hp] at h2; simp at h2
+              have := accepted_aux b T M r _ s1 a' pl h hT hp
+              rw [this, ← h2, haddr]; simp
+        · cases h2
   | .emit i :: r, s, s1, a', placed, h, hT, h2 => by
       simp only [pass1] at h
       simp only [pass2] at h2
@@ -93,9 +125,9 @@ theorem accepted_aux {ι} (b : Backend ι) (T : Syms) (M : Mem) :
       simpa using key
 
 /-- **accepted_labels_stable** (the unconditional form, since dd028e1).  For EVERY back end — no
-    size-stability, no assumption about flag bytes — if pass 1 and pass 2 both accept the program, then
-    pass 2 met every label at exactly the address pass 1 bound it to, and that is where the bytes
-    following the label are placed: pass 2 itself checks it. -/
+    size-stability, no assumption about flag bytes or pads — if pass 1 and pass 2 both accept the program,
+    then pass 2 met every name, whether bound by `name:` or by `.func name`, at exactly the location counter
+    pass 1 bound it to: pass 2 itself checks it. -/
 theorem accepted_labels_stable {ι} (b : Backend ι) (prog : List (Stmt ι)) (a0 : Nat) (m0 : Mem)
     (s1 : St1) (placed : List (String × Nat))
     (h1 : pass1 b prog { addr := a0, syms := [], mem := m0 } = some s1)
@@ -103,41 +135,82 @@ theorem accepted_labels_stable {ι} (b : Backend ι) (prog : List (Stmt ι)) (a0
   have := accepted_aux b s1.syms s1.mem prog _ s1 a0 placed h1 (fun _ _ h => h) h2
   simpa using this.symm
 
-/-- pass 2 = the unchecked placement walk whenever it accepts -/
-theorem pass2_eq_place2 {ι} (b : Backend ι) (T : Syms) (M : Mem) :
+/-- pass 2 = the unchecked walk of the location counter whenever it accepts -/
+theorem pass2_eq_met2 {ι} (b : Backend ι) (T : Syms) (M : Mem) :
     ∀ (prog : List (Stmt ι)) (a : Nat) (placed : List (String × Nat)),
-      pass2 b T M prog a = some placed → place2 b T M prog a = placed
-  | [], a, placed, h => by simp [pass2] at h; simp [place2, h]
+      pass2 b T M prog a = some placed → met2 b T M prog a = placed
+  | [], a, placed, h => by simp [pass2] at h; simp [met2, h]
   | .label n :: r, a, placed, h => by
       simp only [pass2] at h
-      have key : ∀ pl, pass2 b T M r a = some pl → place2 b T M r a = pl := pass2_eq_place2 b T M r a
+      have key : ∀ pl, pass2 b T M r a = some pl → met2 b T M r a = pl := pass2_eq_met2 b T M r a
       split at h
-      · split at h
-        · cases h
-        · cases hp : pass2 b T M r a with
-          | none => rw [hp] at h; simp at h
-          | some pl => rw [hp] at h; simp at h; simp [place2, key pl hp, h]
       · cases hp : pass2 b T M r a with
         | none => rw [hp] at h; simp at h
-        | some pl => rw [hp] at h; simp at h; simp [place2, key pl hp, h]
+        | some pl => rw [hp] at h; simp at h; simp [met2, key pl hp, h]
+      · cases h
+  | .func n :: r, a, placed, h => by
+      simp only [pass2] at h
+      have key : ∀ pl, pass2 b T M r a = some pl → met2 b T M r a = pl := pass2_eq_met2 b T M r a
+      split at h
+      · cases hp : pass2 b T M r a with
+        | none => rw [hp] at h; simp at h
+        | some pl => rw [hp] at h; simp at h; simp [met2, key pl hp, h]
+      · cases h
   | .emit i :: r, a, placed, h => by
-      simp only [pass2] at h; simp only [place2]; exact pass2_eq_place2 b T M r _ placed h
+      simp only [pass2] at h; simp only [met2]; exact pass2_eq_met2 b T M r _ placed h
   | .data bs :: r, a, placed, h => by
-      simp only [pass2] at h; simp only [place2]; exact pass2_eq_place2 b T M r _ placed h
+      simp only [pass2] at h; simp only [met2]; exact pass2_eq_met2 b T M r _ placed h
   | .org x :: r, a, placed, h => by
-      simp only [pass2] at h; simp only [place2]; exact pass2_eq_place2 b T M r _ placed h
+      simp only [pass2] at h; simp only [met2]; exact pass2_eq_met2 b T M r _ placed h
 
-/-- **moved_label_is_error.**  Contrapositive: if the bytes following some label would be placed elsewhere
-    than at the address pass 1 bound it to, pass 2 rejects the program. -/
+/-- where nothing is padded in front of what follows a name, the bytes following each name are placed at
+    the location counter at which the name was met -/
+theorem place2_eq_met2 {ι} (b : Backend ι) (T : Syms) (M : Mem) :
+    ∀ (prog : List (Stmt ι)) (a : Nat), PadFreeAtNames b T M prog a → place2 b T M prog a = met2 b T M prog a
+  | [], a, _ => by simp [place2, met2]
+  | .label n :: r, a, h => by
+      obtain ⟨hc, hr⟩ := h
+      simp only [place2, met2, hc, place2_eq_met2 b T M r a hr]
+  | .func n :: r, a, h => by
+      obtain ⟨hc, hr⟩ := h
+      simp only [place2, met2, hc, place2_eq_met2 b T M r a hr]
+  | .emit i :: r, a, h => by
+      simp only [PadFreeAtNames] at h; simp only [place2, met2]; exact place2_eq_met2 b T M r _ h
+  | .data bs :: r, a, h => by
+      simp only [PadFreeAtNames] at h; simp only [place2, met2]; exact place2_eq_met2 b T M r _ h
+  | .org x :: r, a, h => by
+      simp only [PadFreeAtNames] at h; simp only [place2, met2]; exact place2_eq_met2 b T M r _ h
+
+theorem codeAt_of_no_pad {ι} (b : Backend ι) (hp : ∀ a, b.pad a = 0) :
+    ∀ (r : List (Stmt ι)) (a : Nat), codeAt b r a = a
+  | [], a => by simp [codeAt]
+  | .label _ :: r, a => by simp only [codeAt]; exact codeAt_of_no_pad b hp r a
+  | .func _ :: r, a => by simp only [codeAt]; exact codeAt_of_no_pad b hp r a
+  | .emit _ :: _, a => by simp [codeAt, hp a]
+  | .data _ :: _, a => by simp [codeAt]
+  | .org _ :: _, a => by simp [codeAt]
+
+/-- a back end that never pads satisfies the side condition of `label_is_placement` on every program -/
+theorem padFree_of_no_pad {ι} (b : Backend ι) (hp : ∀ a, b.pad a = 0) (T : Syms) (M : Mem) :
+    ∀ (prog : List (Stmt ι)) (a : Nat), PadFreeAtNames b T M prog a
+  | [], a => by simp [PadFreeAtNames]
+  | .label _ :: r, a => ⟨codeAt_of_no_pad b hp r a, padFree_of_no_pad b hp T M r a⟩
+  | .func _ :: r, a => ⟨codeAt_of_no_pad b hp r a, padFree_of_no_pad b hp T M r a⟩
+  | .emit _ :: r, a => by simp only [PadFreeAtNames]; exact padFree_of_no_pad b hp T M r _
+  | .data _ :: r, a => by simp only [PadFreeAtNames]; exact padFree_of_no_pad b hp T M r _
+  | .org _ :: r, a => by simp only [PadFreeAtNames]; exact padFree_of_no_pad b hp T M r _
+
+/-- **moved_label_is_error.**  Contrapositive: if pass 2 would meet some name (`name:` or `.func name`) at
+    another location counter than the one pass 1 bound it to, pass 2 rejects the program. -/
 theorem moved_label_is_error {ι} (b : Backend ι) (prog : List (Stmt ι)) (a0 : Nat) (m0 : Mem) (s1 : St1)
     (h1 : pass1 b prog { addr := a0, syms := [], mem := m0 } = some s1)
-    (hmoved : place2 b s1.syms s1.mem prog a0 ≠ s1.syms) :
+    (hmoved : met2 b s1.syms s1.mem prog a0 ≠ s1.syms) :
     pass2 b s1.syms s1.mem prog a0 = none := by
   cases h2 : pass2 b s1.syms s1.mem prog a0 with
   | none => rfl
   | some placed =>
       have e1 := accepted_labels_stable b prog a0 m0 s1 placed h1 h2
-      have e2 := pass2_eq_place2 b s1.syms s1.mem prog a0 placed h2
+      have e2 := pass2_eq_met2 b s1.syms s1.mem prog a0 placed h2
       exact absurd (e2.trans e1) hmoved
 
 theorem labels_stable_aux {ι} (b : Backend ι) (hst : ∀ i, SizeStable b i) (T : Syms) (M : Mem) :
@@ -158,10 +231,22 @@ theorem labels_stable_aux {ι} (b : Backend ι) (hst : ∀ i, SizeStable b i) (T
         have hTn := hT n s.addr hb
         obtain ⟨pl, hp, he⟩ := labels_stable_aux b hst T M r _ s1 h hT hI
         refine ⟨(n, s.addr) :: pl, ?_, by rw [he]; simp⟩
-        simp only [pass2, hTn]
-        simp only [bne_self_eq_false, Bool.false_eq_true, if_false]
         simp only at hp
-        rw [hp]; rfl
+        simp [pass2, appendLocked, hTn, hp]
+  | .func n :: r, s, s1, h, hT, hI => by
+      simp only [pass1] at h
+      split at h
+      · cases h
+      · rename_i hnone
+        have hnone' : lookup s.syms n = none := by simpa using hnone
+        obtain ⟨u, hu⟩ := pass1_ext b r _ s1 h
+        have hb : lookup s1.syms n = some s.addr := by
+          rw [hu]; exact lookup_bound s.syms u n s.addr hnone'
+        have hTn := hT n s.addr hb
+        obtain ⟨pl, hp, he⟩ := labels_stable_aux b hst T M r _ s1 h hT hI
+        refine ⟨(n, s.addr) :: pl, ?_, by rw [he]; simp⟩
+        simp only at hp
+        simp [pass2, appendLocked, hTn, hp]
   | .emit i :: r, s, s1, h, hT, hI => by
       simp only [pass1] at h
       obtain ⟨hflag, hI'⟩ := hI
@@ -171,7 +256,7 @@ theorem labels_stable_aux {ι} (b : Backend ι) (hst : ∀ i, SizeStable b i) (T
         apply hT
         have : s1.syms = s.syms ++ u := hu
         rw [this]; exact lookup_append _ _ _ _ hv
-      have hsz := hst i (lookup s.syms) (lookup T) s.addr hsub
+      have hsz := hst i (lookup s.syms) (lookup T) (s.addr + b.pad s.addr) hsub
       obtain ⟨pl, hp, he⟩ := labels_stable_aux b hst T M r _ s1 h hT hI'
       exact ⟨pl, by simp only [pass2, hflag, hsz]; exact hp, he⟩
   | .data bs :: r, s, s1, h, hT, hI => by
@@ -184,7 +269,7 @@ theorem labels_stable_aux {ι} (b : Backend ι) (hst : ∀ i, SizeStable b i) (T
       exact ⟨pl, by simp only [pass2]; exact hp, he⟩
 
 /-- **labels_stable.**  If every instruction of the back end is size-stable, then every program that pass 1
-    accepts and whose flag bytes survive pass 1 (`Intact`) is ACCEPTED by pass 2, which meets the labels
+    accepts and whose flag bytes survive pass 1 (`Intact`) is ACCEPTED by pass 2, which meets the names
     in the same order at exactly the addresses pass 1 bound them to.  (With `accepted_labels_stable`:
     size-stable back ends are never rejected by the moved-label check; others are never miscompiled.) -/
 theorem labels_stable {ι} (b : Backend ι) (hst : ∀ i, SizeStable b i) (prog : List (Stmt ι))
@@ -197,15 +282,48 @@ theorem labels_stable {ι} (b : Backend ι) (hst : ∀ i, SizeStable b i) (prog 
   simp only at hp
   rw [hp, this]
 
-/-- **label_is_placement.**  The address bound to a label is the address at which the code or data
-    following it is placed in pass 2 — for every accepted program of every back end. -/
+/-- **label_is_placement.**  The address bound to a name (`name:` or `.func name`) is the address at which the
+    code or data following it is placed in pass 2 — for every accepted program of every back end, provided the
+    back end pads nothing between a name and the instruction that follows it (`PadFreeAtNames`; every back end
+    with `pad = 0` satisfies it: `label_is_placement_no_pad`).  The side condition is necessary:
+    `pad_breaks_placement`. -/
 theorem label_is_placement {ι} (b : Backend ι) (prog : List (Stmt ι))
     (a0 : Nat) (m0 : Mem) (s1 : St1) (placed : List (String × Nat))
     (h1 : pass1 b prog { addr := a0, syms := [], mem := m0 } = some s1)
-    (h2 : pass2 b s1.syms s1.mem prog a0 = some placed) :
+    (h2 : pass2 b s1.syms s1.mem prog a0 = some placed)
+    (hpad : PadFreeAtNames b s1.syms s1.mem prog a0) :
     place2 b s1.syms s1.mem prog a0 = s1.syms := by
-  rw [pass2_eq_place2 b _ _ prog a0 placed h2]
+  rw [place2_eq_met2 b _ _ prog a0 hpad, pass2_eq_met2 b _ _ prog a0 placed h2]
   exact accepted_labels_stable b prog a0 m0 s1 placed h1 h2
+
+/-- **label_is_placement_no_pad.**  For a back end that never pads (all of them except asm/msp430.cpp and
+    asm/avr8.cpp in the tree as it is) the address bound to a name is where the following bytes go, for every
+    accepted program. -/
+theorem label_is_placement_no_pad {ι} (b : Backend ι) (hp : ∀ a, b.pad a = 0) (prog : List (Stmt ι))
+    (a0 : Nat) (m0 : Mem) (s1 : St1) (placed : List (String × Nat))
+    (h1 : pass1 b prog { addr := a0, syms := [], mem := m0 } = some s1)
+    (h2 : pass2 b s1.syms s1.mem prog a0 = some placed) :
+    place2 b s1.syms s1.mem prog a0 = s1.syms :=
+  label_is_placement b prog a0 m0 s1 placed h1 h2 (padFree_of_no_pad b hp _ _ prog a0)
+
+/-- **pad_breaks_placement.**  The side condition of `label_is_placement` is necessary, for every back end:
+    wherever the back end pads (`pad a ≠ 0`), the two-statement program `n: instruction` at `a` is accepted by
+    both passes — the name is met at `a` in both, nothing "moves" — yet the instruction is placed at
+    `a + pad a ≠ a`.  (C02-m2 and the MSP430/AVR8 behaviour.) -/
+theorem pad_breaks_placement {ι} (b : Backend ι) (i : ι) (n : String) (a : Nat) (m0 : Mem) (hp : b.pad a ≠ 0) :
+    ∃ s1, pass1 b [.label n, .emit i] { addr := a, syms := [], mem := m0 } = some s1 ∧
+      s1.syms = [(n, a)] ∧
+      pass2 b s1.syms s1.mem [.label n, .emit i] a = some [(n, a)] ∧
+      place2 b s1.syms s1.mem [.label n, .emit i] a = [(n, a + b.pad a)] ∧
+      place2 b s1.syms s1.mem [.label n, .emit i] a ≠ s1.syms := by
+  refine ⟨_, rfl, ?_⟩
+  refine ⟨by simp, ?_, ?_, ?_⟩
+  · simp [pass2, appendLocked, lookup]
+  · simp [place2, codeAt]
+  · simp only [place2, codeAt]
+    intro h
+    have : a + b.pad a = a := by simpa using h
+    omega
 
 /-- data directives as a back end: the size is the number of bytes in both passes -/
 def dataBackend : Backend (List Nat) where
@@ -284,5 +402,39 @@ theorem value_changed_sizes_differ :
 theorem flag_overwritten_is_rejected :
     both msp430Imm [.emit (.sym "fwd"), .label "after", .org 0, .data [0], .org 2, .label "fwd"] 0 =
       some ([("after", 4), ("fwd", 2)], none, [("after", 2), ("fwd", 2)]) := by decide
+
+/-- **func_moved_is_rejected.**  The check covers names bound by `.func`: `.func first / lda table,x / .func second`
+    with `table` a forward reference to a small value, on a back end that re-decides the size in pass 2 (6809
+    indexed, TMS340 jruc): pass 1 binds `second` to 0x1004, pass 2 would meet it at 0x1002 — rejected, although
+    no plain `name:` stands behind the instruction (C02-m1 removes exactly this). -/
+theorem func_moved_is_rejected :
+    both (naive msp430Cg 2 4) [.func "first", .emit (.sym "table"), .func "second", .org 2, .label "table"] 0x1000 =
+      some ([("first", 0x1000), ("second", 0x1004), ("table", 2)], none,
+            [("first", 0x1000), ("second", 0x1002), ("table", 2)]) := by decide
+
+-- non-vacuity of `accepted_labels_stable` / `label_is_placement` with `.func` names: accepted, placed = table
+example : both (flagIdiom msp430Cg 2 4) [.func "first", .emit (.sym "table"), .func "second", .data [7], .org 2, .label "table"] 0x1000 =
+    some ([("first", 0x1000), ("second", 0x1004), ("table", 2)], some [("first", 0x1000), ("second", 0x1004), ("table", 2)],
+          [("first", 0x1000), ("second", 0x1004), ("table", 2)]) := by decide
+
+/-- **msp430_pad_counterexample** (genuine defect left in the code, known finding `msp430-pad-behind-label`).
+    `.org 0x1000 / .db 1 / lab: / mov.w #0x1234, r5` on the MSP430 model: both passes accept and agree
+    (`lab` = 0x1001 in both), but the instruction is placed at 0x1002 behind the pad byte. -/
+theorem msp430_pad_counterexample :
+    both msp430Imm [.data [1], .label "lab", .emit (.const 0x1234), .label "end"] 0x1000 =
+      some ([("lab", 0x1001), ("end", 0x1006)], some [("lab", 0x1001), ("end", 0x1006)],
+            [("lab", 0x1002), ("end", 0x1006)]) := by decide
+
+/-- **avr8_skip_counterexample** (genuine defect left in the code, known finding `avr8-skip-behind-label`).
+    Byte counters: `.db 1 / lab: / nop` from byte 0x200: `lab` is bound at byte counter 0x201 (word 0x100, the
+    word that holds the data byte), the nop is placed at byte 0x202 (word 0x101). -/
+theorem avr8_skip_counterexample :
+    both avr8Word [.data [1], .label "lab", .emit (), .label "end"] 0x200 =
+      some ([("lab", 0x201), ("end", 0x204)], some [("lab", 0x201), ("end", 0x204)],
+            [("lab", 0x202), ("end", 0x204)]) := by decide
+
+-- the MSP430 model at even counters pads nothing: the side condition of `label_is_placement` holds there
+example : PadFreeAtNames msp430Imm [] (fun _ => 0) [.label "a", .emit (.const 5), .label "b", .emit (.sym "a")] 0x8000 := by
+  simp [PadFreeAtNames, codeAt, msp430Imm, flagIdiom, Opd.eval, msp430Cg]
 
 end NakenVerif.TwoPass
